@@ -21,6 +21,7 @@ package helper
 func Seq[T Number](from, to, increment T) <-chan T {
 	c := make(chan T)
 
+	VerifStage("Seq", 0, nil, []any{c})
 	go func() {
 		for i := from; i < to; i += increment {
 			c <- i
